@@ -235,6 +235,16 @@ def check_stan(res, a):
         res.violation("stan-pattern", f"stan_epochs{tuple(a)} = {seq}, expected {exp}", a)
     if len(slow) >= 2:
         res.nontriv(("stan", len(slow), w, i, t, b, tp, tw))
+    # the caller may do what it likes with the returned list: a second call with equal arguments is unaffected
+    if (w + p) % 7 == 0:
+        eps[-1].duration += 3
+        eps[1].thinning = 99
+        eps.pop(2)
+        again = [(int(e.type), int(e.duration), int(e.thinning)) for e in stan_epochs(w, p, i, t, b, tp, tw)]
+        res.mon("stan_pattern")
+        if again != exp:
+            res.violation("stan-shared-state", f"stan_epochs{tuple(a)} called a second time (after the caller modified the first "
+                          f"result) returned {again}, expected {exp}", a)
 
 
 def gen_stan_args(rng):
